@@ -66,7 +66,7 @@ def scenarios(rng, rounds):
         key = rng.randbytes(rng.randrange(1, 65))
         digits = rng.randrange(6, 11)
         period = rng.choice([1, 30, 60, rng.randrange(1, 3601)])
-        ts = rng.choice([rng.randrange(0, 1 << 33), rng.randrange(0, 86400), period * rng.randrange(1, 1 << 26), 59])
+        ts = rng.choice([rng.randrange(0, 1 << 33), rng.randrange(0, 86400), period * rng.randrange(1, 1 << 26), 59, 0, 0, period - 1, period])
         algs = ["sha1", "sha256", "sha512"]
         rng.shuffle(algs)
         alive = []
@@ -89,6 +89,15 @@ def scenarios(rng, rounds):
             yield ("time-aware-dt" if tag.startswith("aware") else "time-" + tag,
                    {"op": "generate", "key": key.hex(), "alg": alg, "digits": digits, "period": period, "time": ts, "time_form": tag, "value": repr(val)}, _gen(t, val), exp)
         del alive
+        # a live object whose key is replaced after it has produced a token follows the new key
+        k2 = rng.randbytes(rng.randrange(1, 65))
+        t = TOTP(key=key, format="raw", alg=algs[0], digits=digits, period=period)
+        before = _gen(t, ts)
+        t.key = k2
+        want, _ = rfc_hotp(k2, ts // period, algs[0], digits)
+        exp = (want, (ts // period + 1) * period, (ts // period) * period)
+        yield ("key-replaced-after-first-token", {"op": "key-replaced", "old_key": key.hex(), "new_key": k2.hex(), "alg": algs[0], "digits": digits, "period": period, "time": ts,
+                                                 "token_before": before[0]}, _gen(t, ts), exp)
 
 
 def correspond(ctx):
